@@ -139,6 +139,14 @@ def check_cells(model: FsmModel, rep, rule_eff='C04.T3', rule_next='C04.T4', onl
                 bad_next.append('%s(): %s%s (%s)' % (meth, '; '.join(nd), ctx, action_id))
         if n_ret == 0:
             bad_eff.append('%s(): no path returns normally in this cell (primitive %s)' % (meth, sorted(prim)))
+        # a cell whose action transmits nothing and connects nothing has no transport operation that may fail: whatever the
+        # action raises there (say, shutdown() of a connection the peer has already reset) ends it before the prescribed close /
+        # next state and costs the user a second, spurious indication from the provider's last-resort handler
+        if not any(a['send'] or a['connect'] for a in alts):
+            for o in outs:
+                if o.kind == 'raise' and not (o.exc_path and any(a['send'] for a in exc_alts)):
+                    bad_eff.append('%s(): may raise %s in a cell that puts nothing on the wire: the action ends without %s'
+                                   % (meth, o.exc, describe_alt(alts[0])))
         results[(e, s)] = cell_res
         what_ok = '%s -> %s(): effects equal %s on %d path(s)' % (key, meth, action_id, n_ret)
         rep.check(not bad_eff, rule_eff, key, loc, what_ok, ' | '.join(sorted(set(bad_eff))))
